@@ -33,39 +33,42 @@ class Deadlock(Exception):
 
 
 class Rows:
-    """Pre-fetched result of one statement (execute+fetch is one step)."""
+    """Result of one statement.  Wraps the real cursor (so a statement the
+    library leaves half-read keeps its read snapshot, exactly as it would
+    outside the harness) and records what the client fetched."""
 
-    def __init__(self, cur):
+    def __init__(self, cur, client=None):
+        self._cur = cur
+        self._client = client
         self.description = cur.description
         self.rowcount = cur.rowcount
         self.lastrowid = cur.lastrowid
-        try:
-            self._rows = cur.fetchall()
-        except sqlite3.ProgrammingError:
-            self._rows = []
-        self._i = 0
+
+    def _seen(self, rows):
+        if self._client is not None:
+            self._client.observe('rows', rows)
+        return rows
 
     def fetchall(self):
-        rows = self._rows[self._i:]
-        self._i = len(self._rows)
-        return rows
+        try:
+            return self._seen(self._cur.fetchall())
+        except sqlite3.ProgrammingError:
+            return []
 
     def fetchone(self):
-        if self._i < len(self._rows):
-            self._i += 1
-            return self._rows[self._i - 1]
-        return None
+        return self._seen(self._cur.fetchone())
 
     def fetchmany(self, size=1):
-        rows = self._rows[self._i:self._i + size]
-        self._i += len(rows)
-        return rows
+        return self._seen(self._cur.fetchmany(size))
 
     def __iter__(self):
-        return iter(self.fetchall())
+        return self
+
+    def __next__(self):
+        return self._seen(next(self._cur))
 
     def close(self):
-        pass
+        self._cur.close()
 
 
 def verb(sql):
@@ -202,7 +205,7 @@ class Execution:
                 self.point(c, ('sql', v))
             try:
                 cur = sqlite3.Connection.execute(con, sql, *args)
-                rows = Rows(cur)
+                rows = Rows(cur, c)
             except sqlite3.OperationalError as exc:
                 if 'locked' in str(exc) or 'busy' in str(exc):
                     n = self.busy_seen.get(c.cid, 0)
@@ -226,7 +229,7 @@ class Execution:
                 self._wake()
             elif not con.in_transaction and v not in ('SELECT', 'PRAGMA'):
                 self._wake()
-            c.observe('sql', v, rows._rows)
+            c.observe('sql', v, rows.rowcount)
             self._unsleep()
             return rows
 
